@@ -1147,6 +1147,13 @@ func (decl ImportDecl) CoqDecl() string {
 	coqImportPath := strings.ReplaceAll(path.Dir(coqPath), "/", ".")
 	// the file of the imported package is named after the mapped path, too
 	name := path.Base(coqPath)
+	if coqImportPath == "." {
+		// a path of one element ("strings") has no directory part
+		if decl.Trusted {
+			return fmt.Sprintf("From Perennial.goose_lang.trusted Require Import %s.", name)
+		}
+		return fmt.Sprintf("From Goose Require %s.", name)
+	}
 	if decl.Trusted {
 		return fmt.Sprintf("From Perennial.goose_lang.trusted Require Import %s.%s.", coqImportPath, name)
 	} else {
